@@ -441,6 +441,7 @@ func (i *interpreter) startPath(w workItem) {
 	i.events = nil
 	i.mapOrder = false
 	i.mapOrderFns = nil
+	i.mapOrderBudget, i.mapOrderUsed = 0, 0
 	i.monitor = false
 	i.frozen = nil
 	i.frozenNames = nil
@@ -459,6 +460,7 @@ func (i *interpreter) startPath(w workItem) {
 	i.tainted = false
 	i.vcwd = ""
 	i.egErr = nil
+	i.colorOn, i.capture, i.captured = false, false, nil
 	i.goOrder, i.goPending = nil, nil
 	i.mapRangers = nil
 	i.recordRangers = false
